@@ -1681,15 +1681,12 @@ fn fparam_emit(ctx: &mut Ctx, entry: usize, v: f64, wty: Ty, rel: bool) {
 }
 
 fn gen_fparams(ctx: &mut Ctx) {
-    // systematic: every entry point with an f64 parameter x every special value (x every weight
-    // type in the thorough tier)
+    // systematic: every entry point with an f64 parameter x every special value x every weight
+    // type (twice in the thorough tier)
     let specials = special_values();
-    for entry in 0..FPARAM_ENTRIES.len() {
-        for &v in &specials {
-            if ctx.quick() {
-                let wty = *ctx.rng.pick(&TYS);
-                fparam_emit(ctx, entry, v, wty, false);
-            } else {
+    for _ in 0..ctx.budget(1, 2) {
+        for entry in 0..FPARAM_ENTRIES.len() {
+            for &v in &specials {
                 for &wty in &TYS {
                     fparam_emit(ctx, entry, v, wty, false);
                 }
